@@ -136,6 +136,7 @@ class SeqProp:
         proofs = core.check_proofs(self.pid, leanchecker=(tier == "thorough"))
 
         n = self.quick_cases if tier == "quick" else self.thorough_cases
+        n *= core.budget_scale(self.anchors, tier, report)
         cases = list(self.corpus())
         n_corpus = len(cases)
         cases.extend(self.gen(rng, n, tier))
